@@ -415,3 +415,17 @@ func Envelopes() []Envelope {
 	}
 	return b.out
 }
+
+// ExtraEnvelopes is the thorough-tier extension of the catalogue: a channel update and a sync
+// message for EVERY state of the full product StateSpecs (the regular catalogue uses the
+// subset MsgStateSpecs inside messages); the signature subset of the sync message cycles.
+func ExtraEnvelopes() []Envelope {
+	b := &builder{}
+	for i, st := range StateSpecs() {
+		st, actor, mask := st, (i%2)*(st.Parts-1), i%(1<<st.Parts)
+		b.add("ChannelUpdateMsg", fmt.Sprintf("full/%s/actor=%d", st.Name(), actor), func() wire.Msg { m := update(st, actor); return &m })
+		tx, ph := TxSpec{State: st, Mask: mask}, channel.Phase(i%(channel.LastPhase+1))
+		b.add("ChannelSyncMsg", fmt.Sprintf("full/phase=%d/%s", ph, tx.Name()), func() wire.Msg { return &client.ChannelSyncMsg{Phase: ph, CurrentTX: *tx.Build()} })
+	}
+	return b.out
+}
